@@ -51,6 +51,14 @@ add("C08", "exploration",
     "Trusted: Fraction(float) exactness, nlrun serialiser, Hypothesis.",
     "DESIGN.md §3 C08")
 
+add("C15", "exploration",
+    "coverage-guided fuzzing (libFuzzer, cargo-fuzz target fz_parse, seeded and empty corpus) plus property-based testing (Hypothesis) of generated texts and literal spellings; nesting-depth probe in a child process",
+    "parse() must return a tree or a parse error for every UTF-8 text: libFuzzer runs bounded by -runs with a token dictionary, Hypothesis "
+    "token soups / mutated repository programs / escape forms with boundary payloads / runaway strings and comments / huge numbers; every "
+    "literal syntax (integers of any size in decimal, 0x, 0b, 0o, NrDIGITS for N=2..36, 64r; q, floats, imaginary; strings, bytes and raw "
+    "strings with every escape form and bracket style) must evaluate to the value its digits and escapes spell.",
+    "Trusted: libFuzzer, catch_unwind in nlrun, CPython int/float parsing. Nesting deeper than 200 excluded (known finding F29).",
+    "DESIGN.md §3 C15")
 add("C16", "exploration",
     "property-based testing (Hypothesis): stated round-trips plus independent Python encoders/decoders (int, Fraction, binascii, base64, gzip, json)",
     "Every codec pair is checked as a round-trip and against an independent Python implementation in both directions; integer "
@@ -185,6 +193,8 @@ def main():
                                "panic capture, fuel hook, counting allocator)"},
             {"name": "hypothesis-suites", "path": "pbt/", "serves_properties": sorted(CHECKS),
              "kind_free_text": "Python Hypothesis suites with reference models, 16 worker processes"},
+            {"name": "libfuzzer-targets", "path": "fuzz/", "serves_properties": ["C15", "C14"],
+             "kind_free_text": "cargo-fuzz crate: fz_parse (parse totality, run by the C15 check), fz_eval (lex+parse+evaluate with fuel, background campaigns)"},
         ],
         "checks": checks,
         "not_applicable": na,
